@@ -149,6 +149,19 @@ fn c02_case(ctx: &Ctx, case: u64, acc: &mut Acc) -> Verdict {
         if full_done.is_some() {
             acc.tally("gossip_dependent_runs_converged_anyway", 1);
         }
+        // with the periodic announce on, every announce brings a Feed with the other side's whole view: pairs that
+        // joining left unrelated are then found quickly. No single run carries a verdict (which member is asked
+        // is random), the rate does (see c02_aggregate)
+        if let Some((freq, _)) = cfg.pa {
+            if freq <= 2 * p {
+                let both = if cfg.pg.is_some() { "_and_gossip" } else { "_only" };
+                acc.tally(&format!("unrelated_pairs_runs_with_frequent_periodic_announce{both}"), 1);
+                if full_done.is_none() {
+                    acc.tally(&format!("unrelated_pairs_runs_with_frequent_periodic_announce{both}_not_converged"), 1);
+                    acc.flag("faultfree", case);
+                }
+            }
+        }
     }
     acc.max("periods_to_mutual_for_related_pairs", rel_done.unwrap());
     // keep running a little: safety must hold in steady state too
@@ -382,6 +395,25 @@ fn c02_feedfit_var(ctx: &Ctx, case: u64, acc: &mut Acc) -> Verdict {
     acc.tally("var_runs", 1);
     acc.nontrivial(fp(&("feedfit_var", case)));
     Ok(())
+}
+
+/// Rate rule for the discovery clause where it is only probabilistic: pairs that joining left unrelated in both
+/// directions (concurrent joins through different seeds). With a frequent periodic announce (every <= 2 probe
+/// periods) each announce is answered with a Feed carrying the other member's whole view, and on the unchanged
+/// tree 9 % (announce + gossip on) / 12 % (announce only) of such runs still lack a full view after 4n+4
+/// periods. A change that silences the periodic announce (or the Feed) pushes that beyond 30 %.
+fn c02_aggregate(acc: &Acc) -> Option<V> {
+    for which in ["_and_gossip", "_only"] {
+        let runs = acc.tallies.get(&format!("unrelated_pairs_runs_with_frequent_periodic_announce{which}")).copied().unwrap_or(0);
+        let bad = acc.tallies.get(&format!("unrelated_pairs_runs_with_frequent_periodic_announce{which}_not_converged")).copied().unwrap_or(0);
+        if runs >= 400 && bad * 100 > runs * 22 {
+            return Some(V::new(
+                "C02/discovery-rate-with-periodic-announce",
+                format!("with a frequent periodic announce{} on, {bad} of {runs} runs that started with unrelated pairs had no full view after 4n+4 probe periods ({:.1} %); the unchanged tree stays below 13 %", if which == "_and_gossip" { " and periodic gossip" } else { "" }, bad as f64 * 100.0 / runs as f64),
+            ));
+        }
+    }
+    None
 }
 
 // ------------------------------------------------------------------ shared formation
@@ -1457,7 +1489,7 @@ pub fn c02() -> Check {
             Workload { name: "feedfit", f: c02_feedfit, quick: 4_800, thorough: 40_000, flav: Flav::Checked },
         ],
         exhaustive: false,
-        aggregate: None,
+        aggregate: Some(c02_aggregate),
     }
 }
 
